@@ -331,7 +331,7 @@ func main() {
 			if got != -b.Compare(a) {
 				res.Fail("compare-not-antisymmetric", fmt.Sprintf("Compare(%s,%s) = %d but Compare(%s,%s) = %d", a, b, got, b, a, b.Compare(a)), replay{Kind: "compare", A: a.String(), B: b.String()})
 			}
-			if (i < 40 && j < 40) || (i+j)%o.Pick(7, 2) == 0 {
+			if (i < 40 && j < 40) || (i+j)%o.Pick(7, 29) == 0 {
 				cases.Add(fmt.Sprintf("CCompare %s %s (%d)%%Z", coqVer(a), coqVer(b), got), map[string]any{"kind": "compare", "a": a.String(), "b": b.String(), "impl": got})
 			}
 		}
